@@ -43,6 +43,43 @@ const std = "stake"
 
 var poolDenoms = []string{"btc", "eth", "usdt"}
 
+// Look-alike denominations: coins that are NOT the liquidity token of any pool but whose denom has the shape
+// "<name>-<N>" (exactly what types.ParseLptDenom / MsgRemoveLiquidity.ValidateBasic accept), N being a pool
+// sequence the machine can reach (1..3): other prefixes, other letter case, leading zeros.  The rich users
+// hold them from genesis (chain.Options.ExtraDenoms), so a removal "with" them is only stopped by the pool
+// lookup.  lookalikeOther are never held by anybody: a shape ValidateBasic refuses, sequence numbers without a pool.
+var (
+	lookalikeHeld  = []string{"voucher-1", "lpt-01", "LPT-1", "xlpt-2", "lpt-002", "Lpt-2", "ibc/lpt-3", "lpt-03", "lpT-3"}
+	lookalikeOther = []string{"lpt-1-1", "lpt-1x", "voucher-4", "lpt-0", "lpt-999"}
+)
+
+var (
+	csEnvOnce sync.Once
+	csEnvDflt *chain.Env
+)
+
+// csEnv is the environment of this package: the default universe plus whale balances of the look-alike denoms.
+func csEnv() *chain.Env {
+	csEnvOnce.Do(func() { csEnvDflt = chain.NewEnv(chain.Options{ExtraDenoms: lookalikeHeld}) })
+	return csEnvDflt
+}
+
+// aliasSeq parses a denom of the shape "<name>-<digits>" on its own (harness side): the number a lenient
+// reader would take for a pool sequence.  ok=false for any other shape.
+func aliasSeq(denom string) (uint64, bool) {
+	i := strings.Index(denom, "-")
+	if i <= 0 || strings.Count(denom, "-") != 1 || i == len(denom)-1 {
+		return 0, false
+	}
+	for _, c := range denom[i+1:] {
+		if c < '0' || c > '9' {
+			return 0, false
+		}
+	}
+	n, err := strconv.ParseUint(denom[i+1:], 10, 64)
+	return n, err == nil
+}
+
 type paramsSpec struct {
 	Fee      string `json:"fee"`     // f/10^18
 	UniFee   string `json:"uni_fee"` // f/10^18
@@ -53,11 +90,11 @@ type paramsSpec struct {
 }
 
 type csOp struct {
-	Kind     string      `json:"kind"` // add | remove | adduni | removeuni | swap | send | params | block
+	Kind     string      `json:"kind"` // add | remove | adduni | removeuni | swap | send | params | block | reimport
 	Who      int         `json:"who"`
 	To       string      `json:"to,omitempty"`    // swap recipient / send target: self | uN | blockedN | pool:<denom> | next | mod
 	Pool     string      `json:"pool,omitempty"`  // counterparty denom naming the pool
-	Denom    string      `json:"denom,omitempty"` // adduni/removeuni side, send denom ("lpt:<denom>" = that pool's share token)
+	Denom    string      `json:"denom,omitempty"` // adduni/removeuni side, send denom ("lpt:<denom>" = that pool's share token); remove with Pool "": the literal (look-alike) denom of WithdrawLiquidity
 	In       string      `json:"in,omitempty"`
 	Out      string      `json:"out,omitempty"`
 	Buy      bool        `json:"buy,omitempty"`
@@ -72,6 +109,7 @@ type csOp struct {
 type poolInfo struct {
 	denom string
 	lpt   string
+	seq   uint64
 	addr  sdk.AccAddress
 }
 
@@ -96,10 +134,13 @@ type csMachine struct {
 	donated             map[string]bool // pool denom -> a donation reached the escrow before
 	feeChanged          bool
 	avoidF1             bool
+	parChanged          bool            // an accepted parameter update happened
+	reimports           int             // genesis round trips so far
+	atReimport          map[string]bool // pools that existed at the last round trip
 }
 
 func newMachine(mode string) *csMachine {
-	c := gen.Env().NewCase()
+	c := csEnv().NewCase()
 	c.IrismodOnly = true
 	m := &csMachine{mode: mode, c: c, pools: map[string]*poolInfo{}, seq: 1, cnt: map[string]int{}, donated: map[string]bool{}}
 	m.par = csParams{fee: big.NewInt(3_000_000_000_000_000), uniFee: big.NewInt(2_000_000_000_000_000),
@@ -382,12 +423,16 @@ func (m *csMachine) Next(t *rapid.T) csOp {
 		return m.genAddUni(t, live)
 	case k < 41 && len(live) > 0:
 		return m.genRemoveUni(t, live)
-	case k < 73 && len(live) > 0:
+	case k < 69 && len(live) > 0:
 		return m.genSwap(t, live)
+	case k < 73 && len(m.order) > 0:
+		return m.genRemoveLookalike(t)
 	case k < 83:
 		return m.genSend(t)
-	case k < 91:
+	case k < 90:
 		return m.genParams(t)
+	case k < 93:
+		return csOp{Kind: "reimport"}
 	default:
 		return csOp{Kind: "block", Dt: gen.Dt(t, "dt")}
 	}
@@ -448,9 +493,69 @@ func (m *csMachine) genRemove(t *rapid.T, live []*poolInfo) csOp {
 		C: lower(t, "mintok", outT, 0).String(), Deadline: m.genDeadline(t)}
 }
 
+// genRemoveLookalike: MsgRemoveLiquidity whose WithdrawLiquidity coin is not a liquidity token but looks like one
+// ("<name>-<N>"), mostly with N the sequence of an existing pool and held by the sender; the minima are aimed at
+// what a reader that took the coin for shares of pool N would pay out.
+func (m *csMachine) genRemoveLookalike(t *rapid.T) csOp {
+	op := csOp{Kind: "remove", Who: m.genWho(t), Deadline: m.genDeadline(t)}
+	var matching []string
+	for _, d := range lookalikeHeld {
+		if n, ok := aliasSeq(d); ok && m.poolBySeq(n) != nil {
+			matching = append(matching, d)
+		}
+	}
+	switch k := uni(t, "fake", 19+1); {
+	case k < 15 && len(matching) > 0:
+		op.Denom = rapid.SampledFrom(matching).Draw(t, "matching")
+	case k < 18:
+		op.Denom = rapid.SampledFrom(lookalikeHeld).Draw(t, "held")
+	default:
+		op.Denom = rapid.SampledFrom(lookalikeOther).Draw(t, "other")
+	}
+	bal := cell(m.sheet, m.user(op.Who), op.Denom)
+	sup := supply(m.sheet, op.Denom)
+	var p *poolInfo
+	if n, ok := aliasSeq(op.Denom); ok {
+		p = m.poolBySeq(n)
+	}
+	var w *big.Int
+	switch k := uni(t, "w", 9+1); {
+	case k < 3 && bal.Sign() > 0:
+		w = new(big.Int).Set(bal)
+	case k < 5 && bal.Sign() > 0:
+		w = quo(bal, big.NewInt(int64(rapid.IntRange(2, 9).Draw(t, "div"))))
+	case k < 7 && p != nil: // an amount that would be a plausible share amount of the aliased pool
+		_, _, L := m.pstate(m.sheet, p)
+		w = m.rel(t, "shares", L)
+	case k < 8:
+		w = add(bal, big1)
+	default:
+		w = m.amount(t, "w", 128)
+	}
+	if w.Sign() <= 0 {
+		w = big.NewInt(1)
+	}
+	outS, outT := big.NewInt(0), big.NewInt(0)
+	if p != nil && sup.Sign() > 0 {
+		S, T, _ := m.pstate(m.sheet, p)
+		outS, outT = genRemove(S, T, sup, w)
+	}
+	op.A, op.B, op.C = capAmt(w).String(), lower(t, "minstd", outS, 0).String(), lower(t, "mintok", outT, 0).String()
+	return op
+}
+
+func (m *csMachine) poolBySeq(n uint64) *poolInfo {
+	for _, d := range m.order {
+		if m.pools[d].seq == n {
+			return m.pools[d]
+		}
+	}
+	return nil
+}
+
 func (m *csMachine) genAddUni(t *rapid.T, live []*poolInfo) csOp {
 	p := rapid.SampledFrom(live).Draw(t, "pool")
-	side := rapid.SampledFrom([]string{std, p.denom}).Draw(t, "side")
+	side := m.genSide(t, p)
 	_, _, L := m.pstate(m.sheet, p)
 	tb := cell(m.sheet, p.addr, side)
 	x := clampRoom(m.rel(t, "x", tb), tb)
@@ -459,9 +564,18 @@ func (m *csMachine) genAddUni(t *rapid.T, live []*poolInfo) csOp {
 		B: lower(t, "minliq", mint, 0).String(), Deadline: m.genDeadline(t)}
 }
 
+// genSide: the coin of a one-sided add/remove: either reserve coin of the pool, rarely a coin the pool does not
+// trade (a third coin that donations may have put on the escrow, another pool's coin, the pool's own share token).
+func (m *csMachine) genSide(t *rapid.T, p *poolInfo) string {
+	if uni(t, "foreignside", 24+1) == 0 {
+		return rapid.SampledFrom([]string{"point", "btc", "eth", "usdt", p.lpt}).Draw(t, "foreign")
+	}
+	return rapid.SampledFrom([]string{std, p.denom}).Draw(t, "side")
+}
+
 func (m *csMachine) genRemoveUni(t *rapid.T, live []*poolInfo) csOp {
 	p := rapid.SampledFrom(live).Draw(t, "pool")
-	side := rapid.SampledFrom([]string{std, p.denom}).Draw(t, "side")
+	side := m.genSide(t, p)
 	who, bal := m.holder(t, p)
 	_, _, L := m.pstate(m.sheet, p)
 	tb := cell(m.sheet, p.addr, side)
@@ -641,6 +755,9 @@ func (m *csMachine) genSend(t *rapid.T) csOp {
 	default: // fund a poor account
 		op.To = rapid.SampledFrom([]string{"u4", "u5"}).Draw(t, "to")
 		op.Denom = rapid.SampledFrom([]string{std, "btc", "eth", "usdt"}).Draw(t, "denom")
+		if uni(t, "fakecoin", 3+1) == 0 {
+			op.Denom = rapid.SampledFrom(lookalikeHeld).Draw(t, "fake")
+		}
 		op.A = m.amount(t, "amt", 100).String()
 	}
 	return op
@@ -709,6 +826,8 @@ func (m *csMachine) build(op csOp, loosened bool) sdk.Msg {
 		lpt := "lpt-999"
 		if p, ok := m.pools[op.Pool]; ok {
 			lpt = p.lpt
+		} else if op.Pool == "" && op.Denom != "" {
+			lpt = op.Denom // look-alike denom, taken literally
 		}
 		minStd, minTok := bi(op.B), bi(op.C)
 		if loosened {
@@ -776,6 +895,9 @@ func (m *csMachine) Apply(op csOp) error {
 		m.cnt["op-block"]++
 		return nil
 	}
+	if op.Kind == "reimport" {
+		return m.applyReimport()
+	}
 	before := m.sheet
 	msg := m.build(op, false)
 	res := m.c.Deliver(msg)
@@ -804,6 +926,9 @@ func (m *csMachine) Apply(op csOp) error {
 				opMu.Unlock()
 			}
 		}
+		if op.Kind == "remove" && op.Pool == "" {
+			m.classifyLookalike(op)
+		}
 		if m.mode == "C02" {
 			if err := m.probeRejection(op, res); err != nil {
 				return err
@@ -825,11 +950,24 @@ func (m *csMachine) Apply(op csOp) error {
 	if op.Kind == "add" {
 		if _, ok := m.pools[op.Pool]; !ok {
 			lpt, addr := escrowOf(m.seq)
-			m.pools[op.Pool] = &poolInfo{denom: op.Pool, lpt: lpt, addr: addr}
+			m.pools[op.Pool] = &poolInfo{denom: op.Pool, lpt: lpt, seq: m.seq, addr: addr}
 			m.order = append(m.order, op.Pool)
 			m.seq++
 			created = true
 			m.cnt["pool-created"]++
+			if m.reimports > 0 {
+				m.cnt["pool-created-after-reimport"]++
+			}
+		}
+	}
+	if m.reimports > 0 {
+		switch {
+		case op.Kind == "swap":
+			m.cnt["swap-after-reimport"]++
+		case (op.Kind == "remove" || op.Kind == "removeuni") && m.atReimport[op.Pool]:
+			m.cnt["liquidity-removed-after-reimport"]++
+		case (op.Kind == "add" || op.Kind == "adduni") && m.atReimport[op.Pool]:
+			m.cnt["liquidity-added-after-reimport"]++
 		}
 	}
 
@@ -849,15 +987,100 @@ func (m *csMachine) Apply(op csOp) error {
 			m.cnt["fee-changed"]++
 		}
 		m.par = csParams{fee: nf, uniFee: bi(op.P.UniFee), tax: bi(op.P.Tax), feeDenom: op.P.FeeDenom, feeAmt: bi(op.P.FeeAmt)}
+		m.parChanged = true
 	}
 	m.sheet = after
 	return m.readback()
 }
 
-// readback compares the pool registry and the parameters in the store with the model.
+// classifyLookalike counts a rejected removal whose coin is not a liquidity token.  The mandatory class is the
+// one where nothing but the pool lookup stands between the message and a payout: the denom passes validation,
+// its number is the sequence of a pool with liquidity, the sender holds the amount, the deadline has not passed.
+func (m *csMachine) classifyLookalike(op csOp) {
+	n, ok := aliasSeq(op.Denom)
+	var p *poolInfo
+	if ok {
+		p = m.poolBySeq(n)
+	}
+	funded := cell(m.sheet, m.user(op.Who), op.Denom).Cmp(bi(op.A)) >= 0
+	live := false
+	if p != nil {
+		S, T, L := m.pstate(m.sheet, p)
+		live = S.Sign() > 0 && T.Sign() > 0 && L.Sign() > 0
+	}
+	switch {
+	case p != nil && live && funded && !m.deadlinePassed(op.Deadline):
+		m.cnt["lookalike-lpt-removal"]++
+		if strings.EqualFold(op.Denom, p.lpt) {
+			m.cnt["lookalike-lpt-removal-case-variant"]++
+		} else if strings.HasPrefix(op.Denom, "lpt-") {
+			m.cnt["lookalike-lpt-removal-leading-zeros"]++
+		} else {
+			m.cnt["lookalike-lpt-removal-other-prefix"]++
+		}
+		if op.Who >= 4 {
+			m.cnt["lookalike-lpt-removal-by-poor-account"]++
+		}
+	case p != nil:
+		m.cnt["lookalike-lpt-removal-unfunded-or-late"]++
+	default:
+		m.cnt["lookalike-lpt-removal-no-such-sequence"]++
+	}
+}
+
+// applyReimport takes the coinswap module through its own genesis (export, wipe the whole store, import): the
+// restored state is a reachable state, so the history goes on and every oracle clause keeps running on it.
+// Checked here: export/import do not fail, no coin moves, a second export equals the first; checked by readback:
+// pools, both indexes, next sequence, standard denom and parameters are what the model says.
+func (m *csMachine) applyReimport() error {
+	k := m.c.E.K.Coinswap
+	cdc := m.c.E.App.AppCodec()
+	exported, stage, err := m.c.Reimport(cstypes.ModuleName)
+	if err != nil {
+		return m.fail("reimport-"+stage, "coinswap genesis round trip with %d pools (next sequence %d): %v; exported %s", len(m.pools), m.seq, err, exported)
+	}
+	after := m.c.Snapshot()
+	if d := chain.Diff(m.sheet, after); !d.Empty() {
+		return m.fail("reimport-moved-coins", "coinswap genesis round trip moved coins: %s", d)
+	}
+	m.sheet = after
+	var g1 cstypes.GenesisState
+	if err := cdc.UnmarshalJSON(exported, &g1); err != nil {
+		return m.fail("reimport-export", "exported coinswap genesis does not parse: %v", err)
+	}
+	g2 := k.ExportGenesis(m.c.Ctx)
+	if a, b := string(cdc.MustMarshalJSON(&g1)), string(cdc.MustMarshalJSON(&g2)); a != b {
+		return m.fail("reimport-lossy", "coinswap genesis differs after export+import: before %s, after %s", a, b)
+	}
+	m.reimports++
+	m.atReimport = map[string]bool{}
+	livePools := 0
+	for d, p := range m.pools {
+		m.atReimport[d] = true
+		if _, _, L := m.pstate(m.sheet, p); L.Sign() > 0 {
+			livePools++
+		}
+	}
+	m.cnt["op-reimport"]++
+	m.cnt["reimport"]++
+	if livePools > 0 {
+		m.cnt["reimport-with-pools"]++
+	}
+	if livePools > 0 && len(m.pools) < len(poolDenoms) {
+		m.cnt["reimport-with-pools-and-room-for-more"]++
+	}
+	if m.parChanged {
+		m.cnt["reimport-with-changed-params"]++
+	}
+	return m.readback()
+}
+
+// readback compares the pool registry (primary records, the index by liquidity-token denom, the next sequence,
+// the standard denom) and the parameters in the store with the model.
 func (m *csMachine) readback() error {
 	k := m.c.E.K.Coinswap
-	pools := k.GetAllPools(m.c.Ctx)
+	g := k.ExportGenesis(m.c.Ctx)
+	pools := g.Pool
 	if len(pools) != len(m.pools) {
 		return m.fail("registry", "store has %d pools, model %d", len(pools), len(m.pools))
 	}
@@ -866,8 +1089,17 @@ func (m *csMachine) readback() error {
 		if !ok || sp.LptDenom != p.lpt || sp.EscrowAddress != p.addr.String() || sp.StandardDenom != std || sp.Id != "pool-"+p.denom {
 			return m.fail("registry", "stored pool %+v does not match the model %+v", sp, p)
 		}
+		if ip, ok := k.GetPoolByLptDenom(m.c.Ctx, p.lpt); !ok || ip.Id != sp.Id || ip.LptDenom != p.lpt {
+			return m.fail("registry", "pool %s is not found under its liquidity-token denom %s (got %+v, found=%v)", sp.Id, p.lpt, ip, ok)
+		}
 	}
-	ps := k.GetParams(m.c.Ctx)
+	if g.Sequence != m.seq {
+		return m.fail("registry", "next pool sequence in the store is %d, model %d (%d pools)", g.Sequence, m.seq, len(m.pools))
+	}
+	if g.StandardDenom != std || k.GetStandardDenom(m.c.Ctx) != std {
+		return m.fail("registry", "standard denom in the store is %q", g.StandardDenom)
+	}
+	ps := g.Params
 	if ps.Fee.BigInt().Cmp(m.par.fee) != 0 || ps.UnilateralLiquidityFee.BigInt().Cmp(m.par.uniFee) != 0 || ps.TaxRate.BigInt().Cmp(m.par.tax) != 0 ||
 		ps.PoolCreationFee.Denom != m.par.feeDenom || ps.PoolCreationFee.Amount.BigInt().Cmp(m.par.feeAmt) != 0 {
 		return m.fail("params-readback", "stored params %s differ from the last accepted update %+v", ps.String(), m.par)
@@ -896,6 +1128,16 @@ func (m *csMachine) oracleC01(op csOp, before, after chain.Sheet, delta chain.De
 	switch op.Kind {
 	case "add", "remove", "adduni", "removeuni":
 		touched[op.Pool] = true
+		if op.Kind == "remove" && op.Pool == "" {
+			// accepted removal with a coin that is no liquidity token: the pool whose sequence the denom carries is
+			// held against the share-value clause, every other pool against "untouched"
+			if n, ok := aliasSeq(op.Denom); ok {
+				if p := m.poolBySeq(n); p != nil {
+					touched[p.denom] = true
+				}
+			}
+			m.cnt["lookalike-lpt-removal-accepted"]++
+		}
 	case "swap":
 		if op.In != std {
 			touched[op.In] = true
